@@ -56,7 +56,7 @@ class ABADecomposer(Decomposer, ABC):
         b_axis_value = axis[self.index_b]
         c_axis_value = axis[self._find_unused_index()]
 
-        if not (-math.pi + ATOL < alpha <= math.pi + ATOL):
+        if not (-math.pi + ATOL <= alpha <= math.pi + ATOL):
             msg = "angle needs to be normalized"
             raise ValueError(msg)
 
